@@ -1157,6 +1157,37 @@ func runSlotMax(c *Ctx, r *Reporter) {
 		}
 	}
 	walk(store.Val, 8)
+	// a hand-written maximum may store conditionally: `if used > outer.nestedMaxIndex { outer.nestedMaxIndex = used }`.
+	// The comparison the store depends on belongs to the computation, and where it compares the stored value with the
+	// old value of the stored field, skipping the store keeps the larger old value: the test then stands for the store.
+	var maxGuard *ssa.If
+	for _, f := range impliedConds(store.Block()) {
+		walk(f.Cond, 8)
+		bo, ok := f.Cond.(*ssa.BinOp)
+		if !ok {
+			continue
+		}
+		isOld := func(v ssa.Value) bool {
+			u, ok := v.(*ssa.UnOp)
+			if !ok {
+				return false
+			}
+			fa, ok := u.X.(*ssa.FieldAddr)
+			sa, ok2 := store.Addr.(*ssa.FieldAddr)
+			return ok && ok2 && fa.Field == sa.Field && fa.X == sa.X
+		}
+		larger := (bo.X == store.Val && isOld(bo.Y) && ((bo.Op == token.GTR && f.Truth) || (bo.Op == token.LEQ && !f.Truth))) ||
+			(bo.Y == store.Val && isOld(bo.X) && ((bo.Op == token.LSS && f.Truth) || (bo.Op == token.GEQ && !f.Truth)))
+		if larger {
+			if refs := bo.Referrers(); refs != nil {
+				for _, ref := range *refs {
+					if ifi, ok := ref.(*ssa.If); ok {
+						maxGuard = ifi
+					}
+				}
+			}
+		}
+	}
 	for _, need := range []string{"outer.nestedMaxIndex", "s.nestedMaxIndex", "s.index"} {
 		r.Check(deps[need], fd.QName()+"#depends-on:"+need, p.Rel(instrPos(store)), "the propagated requirement depends on "+need, "the slot requirement stored into the outer table no longer depends on "+need+": blocks nested or placed side by side in a certain way get too few local slots, and the VM's operand stack overwrites live variables")
 	}
@@ -1170,7 +1201,7 @@ func runSlotMax(c *Ctx, r *Reporter) {
 		if ret.Results[0] == ssa.Value(sf.Params[0]) {
 			continue
 		}
-		if !instrDominates(store, ret) {
+		if !instrDominates(store, ret) && !(maxGuard != nil && instrDominates(maxGuard, ret)) {
 			early = p.Rel(instrPos(ret))
 		}
 	}
